@@ -15,6 +15,10 @@
           (b) every emitted program is built as real config files (every directory holds a decoy with the same
           relative name) and parsed through parse_path / --cfg / default_config_files / a sub-config option; the
           resolved locations, os.getcwd(), current_path_dir and the os.chdir calls are observed.
+          Round 4: MC_PathsCwd with Universe = "link" (cfg MC_PathsLink_*): config files that are symbolic links to files
+          elsewhere and / or are named through <symlinked directory>/.., the value's file next to the link only / next to
+          the target only / where the textual reading points / in all three; a seeded sample of the emitted programs is
+          built and parsed; the directory of the ABSOLUTE path of every value says which file was read.
   TRACE   (code -> spec) all observations, plus seeded random programs beyond the bounds (deeper chains, more
           directories, odd relative spellings, dict / list / dataclass leaves), are validated by TLC against
           Trace_Paths (Ref clauses: verdict; Alg clauses: drift).
@@ -316,10 +320,12 @@ def run_program(task) -> dict:
     root = os.path.join(base, f"p{idx}")
     dirs, first, n = prog["dirs"], prog["first"], len(prog["dirs"])
     leaf = prog.get("leaf", "parser")
-    obs = {"p": {k: prog[k] for k in ("dirs", "first", "start", "entry", "fail")}, "idx": idx, "src": src, "leaf": leaf}
+    tdirs, xdirs, place = prog.get("tdirs") or list(dirs), prog.get("xdirs") or list(dirs), prog.get("place") or ["all"] * n
+    linky = tdirs != dirs or xdirs != dirs or any(pl != "all" for pl in place)
+    obs = {"p": {**{k: prog[k] for k in ("dirs", "first", "start", "entry", "fail")}, "tdirs": tdirs, "xdirs": xdirs, "place": place}, "idx": idx, "src": src, "leaf": leaf}
     log = []
     try:
-        names = sorted(set(dirs) | {prog["start"]})
+        names = sorted(set(dirs) | set(tdirs) | set(xdirs) | {prog["start"]})
         real = {d: os.path.join(root, d) for d in names}
         for d in names:
             os.makedirs(real[d], exist_ok=True)
@@ -328,11 +334,35 @@ def run_program(task) -> dict:
             with open(os.path.join(real[d], "v.txt"), "w") as f:
                 f.write(d)
         files = [os.path.join(real[dirs[k]], f"level{k + 1}_{rnd.randrange(1000)}.yaml") for k in range(n)]
+        # round 4: the file of level k is WRITTEN next to its target (tdirs) and NAMED in dirs by a symbolic link; it is SPELLED
+        # through <xdirs>/dl<k>/.. (dl<k> = a symbolic link to a subdirectory of dirs) when the textual reading differs
+        written = [files[k] if tdirs[k] == dirs[k] else os.path.join(real[tdirs[k]], f"target{k + 1}_{rnd.randrange(1000)}.yaml") for k in range(n)]
+        named = list(files)
+        for k in range(n):
+            if xdirs[k] != dirs[k]:
+                os.makedirs(os.path.join(real[dirs[k]], f"sub{k + 1}"), exist_ok=True)
+                dl = os.path.join(real[xdirs[k]], f"dl{k + 1}")
+                if not os.path.lexists(dl):
+                    os.symlink(os.path.join("..", dirs[k], f"sub{k + 1}") if rnd.random() < 0.5 else os.path.join(real[dirs[k]], f"sub{k + 1}"), dl)
+                named[k] = os.path.join(dl, "..", os.path.basename(files[k]))
+            if place[k] != "all":  # the value's file exists only where the program says, with different content in each place
+                holds = {"named": [dirs[k]], "target": [tdirs[k]], "textual": [xdirs[k]], "three": [dirs[k], tdirs[k], xdirs[k]]}[place[k]]
+                for d in set(holds):
+                    with open(os.path.join(real[d], f"v{k + 1}.txt"), "w") as f:
+                        f.write(d)
         fk, fl = prog["fail"]
 
-        def spell(target, frm):
-            rel = os.path.relpath(target, frm)
+        def spell(k, frm):
+            target = named[k]
+            # (relpath would collapse "dl/.." textually: the directory part is made relative, the rest is kept as spelled)
+            if xdirs[k] != dirs[k]:
+                rel = os.path.join(os.path.relpath(real[xdirs[k]], frm), f"dl{k + 1}", "..", os.path.basename(files[k]))
+                rel = rel[2:] if rel.startswith("./") else rel
+            else:
+                rel = os.path.relpath(target, frm)
             r = rnd.random()
+            if linky:  # the model assumes: a reference into the directory of the referring file is spelled without a directory part
+                return "./" + rel if r < 0.3 else rel
             if r < 0.2:
                 return "./" + rel
             if r < 0.3:
@@ -342,25 +372,29 @@ def run_program(task) -> dict:
             return rel
 
         for k in range(n):
-            value = "nothere.txt" if (fk == "badpath" and fl == k + 1) else rnd.choice(["v.txt", "./v.txt"])
+            vname = "v.txt" if place[k] == "all" else f"v{k + 1}.txt"
+            value = "nothere.txt" if (fk == "badpath" and fl == k + 1) else rnd.choice([vname, "./" + vname])
             if k == n - 1 and leaf != "parser":  # the typed leaf file: nothing but the path value(s)
-                with open(files[k], "w") as f:
+                with open(written[k], "w") as f:
                     f.write(yaml.safe_dump({"dict": {"a": value}, "list": [value], "dc": {"f": value, "k": 1}}[leaf]))
                 continue
             items = [("f", value)]
             if k < n - 1:
-                ref = spell(files[k + 1], real[dirs[k]])
+                ref = spell(k + 1, real[dirs[k]])
                 if fk == "missingfile" and fl == k + 2:
                     ref = os.path.join(os.path.dirname(ref), "no_such_config.yaml")
                 items.append(("t" if (k == n - 2 and leaf != "parser") else "l", ref))
             if not first[k]:
                 items.reverse()
-            with open(files[k], "w") as f:
+            with open(written[k], "w") as f:
                 f.write("".join(f"{a}: {json.dumps(b)}\n" for a, b in items))
                 if fk == "badyaml" and fl == k + 1:
                     f.write("broken: [1, 2\n  - {\n")
+        for k in range(n):
+            if written[k] != files[k]:
+                os.symlink(written[k] if rnd.random() < 0.5 else os.path.relpath(written[k], os.path.dirname(files[k])), files[k])
         start = real[prog["start"]]
-        top = spell(files[0], start) if rnd.random() < 0.7 else files[0]
+        top = spell(0, start) if rnd.random() < 0.7 else named[0]
         _chdir(start)
         current_path_dir.set(None)  # pool workers are reused: nothing a previous case left behind may be blamed on this one
 
@@ -381,7 +415,7 @@ def run_program(task) -> dict:
                 elif how == "args_cfg":
                     cfg = chain_parser(n, leaf).parse_args([f"--cfg={top}"] if rnd.random() < 0.5 else ["--cfg", top])
                 else:
-                    cfg = chain_parser(n, leaf, dcf=[files[0]]).parse_args([])
+                    cfg = chain_parser(n, leaf, dcf=[named[0]]).parse_args([])
             obs["out"], obs["exc"] = "ok", ""
         except BaseException as ex:  # noqa: B036
             cfg = None
@@ -425,8 +459,15 @@ def random_program(rnd: random.Random) -> dict:
     leaf = rnd.choice(["parser", "parser", "dict", "list", "dc"])
     # (a bad value inside a typed leaf makes _typehints.py:591-596 try again: the same Ref, another chdir sequence)
     fails = [["none", 0]] * 3 + [["badpath", k] for k in range(1, n + (0 if leaf != "parser" else 1))] + [["missingfile", k] for k in range(2, n + (0 if leaf != "parser" else 1))] + [["badyaml", k] for k in range(1, n + (0 if leaf != "parser" else 1))]
-    return {"dirs": [rnd.choice(pool) for _ in range(n)], "first": [rnd.random() < 0.5 for _ in range(n)], "start": rnd.choice(pool),
+    prog = {"dirs": [rnd.choice(pool) for _ in range(n)], "first": [rnd.random() < 0.5 for _ in range(n)], "start": rnd.choice(pool),
             "entry": rnd.choice(["file", "file", "sub"]), "fail": rnd.choice(fails), "leaf": leaf}
+    if rnd.random() < 0.5:  # round 4: symbolic links to files elsewhere, files named through <symlinked directory>/.., values that exist in some places only
+        prog["tdirs"] = [rnd.choice(pool) if rnd.random() < 0.5 else d for d in prog["dirs"]]
+        prog["xdirs"] = [rnd.choice(pool) if rnd.random() < 0.25 else d for d in prog["dirs"]]
+        prog["place"] = [rnd.choice(["all", "named", "named", "target", "textual", "three"]) for _ in range(n)]
+        if leaf != "parser":  # (a value that is not found inside a typed leaf makes _typehints.py:591-596 try again: not modelled)
+            prog["place"][-1] = rnd.choice(["all", "three"])
+    return prog
 
 
 # ================================================================ main
@@ -442,6 +483,7 @@ def main(argv):
         "the facts of a path (stat result, kind, access bits, parent / ancestor directory facts) come from an os.stat / os.lstat / os.access oracle written for the harness; os.access as uid nobody is the meaning of readable / writeable / executable",
         "Ref reads the docstring literally: 'c' = parent directory exists and is writeable, 'cc' = the nearest existing ancestor is a writeable directory; file-like = regular file or fifo (the code's symmetric rule); an existing fifo under 'fc' is undocumented (either outcome allowed)",
         "url / fsspec flags (u, s) are outside the model (valid in the mode language part only)",
+        "the directories of the config files are siblings (a reference ../X/file means the same from each of them); symbolic links to links, link loops and a symlinked process cwd are not modelled",
         "failures are planted as a path value that points to nothing or a nested config file that does not exist; the observable on a failing parse is os.getcwd(), current_path_dir and the os.chdir sequence",
         "the probes need root to drop to uid 65534; trailing-slash spellings of non-directories are not probed",
     ]
@@ -462,6 +504,18 @@ def main(argv):
     programs = sorted((p for p in mcc.printed if isinstance(p, dict) and "p" in p), key=lambda p: json.dumps(p["p"], sort_keys=True))
     if not mcc.violated and (not programs or mcc.rc != 0 or mcc.errors):
         machinery_failure(PID, "TLC failed on MC_PathsCwd:\n" + mcc.stdout[-3000:])
+    # round 4: config files that are symbolic links / named through a symlinked directory (same module, universe "link")
+    mcl = tlc.run("MC_PathsCwd", f"MC_PathsLink_{tier}", workers=workers, heap=heap, timeout=1500)
+    rep.add_tlc(f"MC_PathsLink_{tier}", mcl)
+    linkprogs = sorted((p for p in mcl.printed if isinstance(p, dict) and "p" in p), key=lambda p: json.dumps(p["p"], sort_keys=True))
+    if mcl.violated:
+        rep.violation("model:MC_PathsLink:" + ",".join(mcl.violated), f"TLC: {mcl.violated} violated in the bounded model MC_PathsLink", {"tlc_errors": mcl.errors, "counterexample": mcl.cex[:4000]})
+    elif not linkprogs or mcl.rc != 0 or mcl.errors:
+        machinery_failure(PID, "TLC failed on MC_PathsLink:\n" + mcl.stdout[-3000:])
+    san2 = tlc.run("MC_PathsCwd", "MC_PathsLink_realpath", workers=1, heap=heap, timeout=600)
+    rep.add_tlc("MC_PathsLink_realpath", san2)
+    if san2.violated != ["InvResolves"]:
+        machinery_failure(PID, f"sanity: the model that enters the directory of the link's target must violate InvResolves, got {san2.violated} {san2.errors[:2]}")
     if tier == "thorough":  # non-vacuity: how often TLC took each phase of the cwd machine (-coverage, on the quick instance)
         cov = tlc.run("MC_PathsCwd", "MC_PathsCwd_quick", workers=workers, heap=heap, timeout=900, coverage=True)
         rep.add_tlc("MC_PathsCwd_quick(coverage)", cov)
@@ -477,6 +531,9 @@ def main(argv):
             programs_r = sorted(keep, key=lambda p: json.dumps(p["p"], sort_keys=True))
         else:
             programs_r = programs
+        n_link = 1500 if tier == "quick" else 20000
+        linkprogs_r = linkprogs if len(linkprogs) <= n_link else sorted(rnd.sample(linkprogs, n_link), key=lambda p: json.dumps(p["p"], sort_keys=True))
+        programs_r = programs_r + linkprogs_r
         tasks = [(i, p["p"], base, seed, "replay") for i, p in enumerate(programs_r)]
         tasks += [(len(programs_r) + j, random_program(rnd), base, seed, "random") for j in range(n_random)]
         run_program((10**9, {"dirs": ["A", "B"], "first": [True, False], "start": "P", "entry": "file", "fail": ["none", 0]}, base, seed, "warmup"))
@@ -503,6 +560,9 @@ def main(argv):
         rep.extra["model_mode_cases"] = len(table)
         rep.extra["model_deviation_classes"] = devs
         rep.extra["model_programs"] = len(programs)
+        rep.extra["model_link_programs"] = len(linkprogs)
+        rep.extra["model_link_programs_replayed"] = len(linkprogs_r)
+        rep.extra["model_link_programs_with_deviation"] = sum(1 for p in linkprogs if p["p"]["dirs"] != p["p"]["xdirs"])
         rep.extra["alg_variant"] = VARIANT
         modes_all = sorted({m for m, _ in table})
         modes = list(enumerate(modes_all))
@@ -603,10 +663,11 @@ def main(argv):
             rep.note_nontrivial("p:" + json.dumps(o["p"], sort_keys=True) + o.get("how", ""))
     rep.rule = ("cases = (mode, probe path) calls of the real Path as uid nobody, mode strings, and parses of chains of config files; non-trivial & distinct = distinct "
                 "(canonical mode, fact vector) pairs that are rejected or involve a creatable / negated flag, plus distinct programs of >= 2 nested config files")
-    rep.exhaustive = tier == "quick"
+    rep.exhaustive = tier == "quick" and len(linkprogs_r) == len(linkprogs)  # (round 4: the link programs are replayed as a seeded sample)
     rep.explanation = (f"MC_Paths enumerated every valid mode of its flag bound x every consistent fact vector ({len(table)} cases) and every short mode string ({len(strtab)}); "
                        f"MC_PathsCwd every chain program of its depth bound ({len(programs)}). Replayed on the real code: {n_calls} Path calls over {len(probes)} fixture probes "
                        f"({rep.extra['distinct_fact_vectors_in_fixture']} distinct fact vectors) x {len(modes)} modes as uid nobody, {n_str} mode strings, {len(programs_r)} model programs and {n_random} random programs; "
+                       f"MC_PathsLink every chain of symlinked / dotdot-named config files of its bound ({len(linkprogs)}, of which a seeded sample of {len(linkprogs_r)} was replayed, included in the model programs above); "
                        "all observations validated by TLC against Trace_Paths. Exhaustive = the bounded model universes were enumerated and replayed completely (quick); the fixture realises a subset of the fact vectors.")
     for k in list(examples)[:1] + [k for k in examples if rejects.get(("mode", k))][:2]:
         rep.sample({**examples[k], "tlc_clauses_failed": rejects.get(("mode", k), [])})
@@ -649,7 +710,11 @@ def main(argv):
                 rep.add_drift("real parse agrees with Ref but not with the Alg transcription (" + ",".join(clauses) + ")", case)
                 continue
             depth = len(o["p"]["dirs"])
-            for c in ref:
+            for c in sorted(set(ref)):
+                if c == "ref-as:dotdot-textual":
+                    rep.violation("cfgdir-dotdot-textual", "a config file named through <symbolic link to a directory elsewhere>/.. : relative paths inside it are resolved against the textually "
+                                  "normalised directory (os.path.abspath, _util.py:304), not against the directory that holds the file", case)
+                    continue
                 rep.violation(f"{c}:{o.get('how')}:{o['p']['fail'][0]}@{o['p']['fail'][1]}of{depth}", f"chain of {depth} config files via {o.get('how')}: {c}", case)
     return rep.finish()
 
